@@ -1,11 +1,11 @@
 package props
 
 import (
-	"time"
 	"bytes"
 	"encoding/hex"
 	"encoding/json"
 	"fmt"
+	"time"
 
 	"github.com/lidofinance/dc4bc/client/api/dto"
 	"github.com/lidofinance/dc4bc/client/services/node"
@@ -85,16 +85,33 @@ func checkC20(c *Ctx) {
 		jb := jobs[i]
 		runC20(c, jb.n, jb.t, jb.shape, c.Seed*127+uint64(i))
 	})
-	runC20Recorded(c)
+	runC20Recorded(c, false)
+	if world.CLIBin() != "" {
+		runC20Recorded(c, true)
+	}
 }
 
 func runC20(c *Ctx, n, t int, shape string, seed uint64) {
 	wit := map[string]interface{}{"n": n, "t": t, "shape": shape, "case_seed": seed}
 	r := sched.Derive(seed, 20)
-	w, err := world.NewWorld(world.Options{N: n, T: t, Seed: seed})
+	// every other case: operators (original ceremony and reinitialisation) use the REST API
+	viaHTTP := seed%2 == 1
+	wit["operator_channel"] = map[bool]string{false: "node service", true: "REST API"}[viaHTTP]
+	// one in four of those: the shipped tool chain as child processes (board dump as CSV -> dkg_reinitializer
+	// -> reinit.json -> dc4bc_cli reinit_dkg; operations and results as files through dc4bc_cli)
+	viaCLI := viaHTTP && shape != "adapted014" && seed%8 == 3 && world.CLIBin() != ""
+	if viaCLI {
+		wit["operator_channel"] = "dc4bc_cli + dkg_reinitializer binaries"
+	}
+	w, err := world.NewWorld(world.Options{N: n, T: t, Seed: seed, ViaHTTP: viaHTTP, ViaCLI: viaCLI})
 	if err != nil {
 		c.Inconclusive("world: %v", err)
 		return
+	}
+	if viaCLI {
+		c.Add("reinitialisations_through_the_shipped_binaries", 1)
+	} else if viaHTTP {
+		c.Add("reinitialisations_through_the_rest_api", 1)
 	}
 	old := &Ceremony{W: w, N: n, T: t}
 	defer old.Close()
@@ -220,6 +237,18 @@ func judgeReinit(c *Ctx, ce *Ceremony, re *types.ReDKG, origKey []byte, origComm
 	if len(hs) != len(w.Nodes) || len(h0) == 0 {
 		c.Violate("C20/confirmation-hash-missing", fmt.Sprintf("%d of %d nodes recorded one", len(hs), len(w.Nodes)), wit)
 	}
+	// ... and equal to what `dc4bc_cli get_reinit_dkg_file_hash` prints for the file the operators hold
+	if ce.ReinitFile != "" && w.Nodes[0].CLI != nil && len(h0) > 0 {
+		got, err := w.Nodes[0].CLI.ReinitFileHash(ce.ReinitFile)
+		c.Eval(1)
+		if err != nil {
+			c.Violate("C20/tool-cannot-hash-the-reinit-file", err.Error(), wit)
+		} else if got != hex.EncodeToString(h0) {
+			c.Violate("C20/confirmation-hash-differs-from-the-tool's", fmt.Sprintf("nodes show %x, get_reinit_dkg_file_hash prints %s", h0, got), wit)
+		} else {
+			c.Add("confirmation_hashes_equal_to_the_cli_tool's", 1)
+		}
+	}
 	// the operators' machines are restarted after the reinitialisation (closed, reopened from the database,
 	// operation log replayed as the manual prescribes) before anything is signed
 	if restartAfter {
@@ -321,6 +350,8 @@ func judgeReinit(c *Ctx, ce *Ceremony, re *types.ReDKG, origKey []byte, origComm
 	}
 }
 
+const recordedLogPath = "/repo/client/test_data/0_1_4_log.csv"
+
 var recordedMnemonics = map[string]string{
 	"swelf":     "cigar family price stove waste reform midnight ceiling panic guitar team merge noble cycle table biology begin consider rally pair spend weapon perfect vague",
 	"callmepak": "panic shuffle tell injury pass bamboo play eye diet play industry banner law poet west chase library print shed image jeans degree fabric like",
@@ -329,8 +360,8 @@ var recordedMnemonics = map[string]string{
 }
 
 // runC20Recorded reinitialises the v0.1.4 log recorded in the repository.
-func runC20Recorded(c *Ctx) {
-	msgs, err := utils.ReadLogMessages("/repo/client/test_data/0_1_4_log.csv", ';', true, 4)
+func runC20Recorded(c *Ctx, tools bool) {
+	msgs, err := utils.ReadLogMessages(recordedLogPath, ';', true, 4)
 	if err != nil {
 		c.Inconclusive("recorded log: %v", err)
 		return
@@ -340,7 +371,8 @@ func runC20Recorded(c *Ctx) {
 	for _, n := range names {
 		mn = append(mn, recordedMnemonics[n])
 	}
-	w, err := world.NewWorld(world.Options{N: 4, T: 2, Seed: c.Seed * 131, Names: names, Mnemonics: mn})
+	viaCLI := tools && world.CLIBin() != "" && world.ReinitializerBin() != ""
+	w, err := world.NewWorld(world.Options{N: 4, T: 2, Seed: c.Seed * 131, Names: names, Mnemonics: mn, ViaCLI: viaCLI})
 	if err != nil {
 		c.Inconclusive("recorded world: %v", err)
 		return
@@ -349,29 +381,47 @@ func runC20Recorded(c *Ctx) {
 	for _, nd := range w.Nodes {
 		keys[nd.Name] = nd.KeyPair.Pub
 	}
-	re, err := types.GenerateReDKGMessage(msgs, keys)
-	if err != nil {
-		w.Close()
-		c.Inconclusive("generate: %v", err)
-		return
-	}
-	re, err = node.GetAdaptedReDKG(re)
-	if err != nil {
-		w.Close()
-		c.Inconclusive("adapt: %v", err)
-		return
-	}
-	ce := &Ceremony{W: w, N: 4, T: re.Threshold, Round: re.DKGID}
-	ce.ReinitHashes = captureReinitHashes(w)
+	var re *types.ReDKG
+	ce := &Ceremony{W: w, N: 4}
 	defer ce.Close()
-	bz, _ := json.Marshal(re)
-	if err := w.Nodes[0].Svc.ReInitDKG(&dto.ReInitDKGDTO{ID: re.DKGID, Payload: bz}); err != nil {
-		c.Inconclusive("reinit post: %v", err)
-		return
+	if viaCLI {
+		// exactly the documented procedure: the repository's CSV dump -> dkg_reinitializer (adapting from
+		// 0.1.4) -> dc4bc_cli reinit_dkg
+		cli := w.Nodes[0].CLI
+		re, _, ce.ReinitFile, err = RunReinitializer(cli.Dir, recordedLogPath, keys, true)
+		if err != nil {
+			c.Violate("C20/reinitialisation-does-not-complete", "recorded 0.1.4 log: "+err.Error(), map[string]interface{}{"shape": "recorded v0.1.4 log through the binaries"})
+			return
+		}
+		ce.T, ce.Round = re.Threshold, re.DKGID
+		ce.ReinitHashes = captureReinitHashes(w)
+		if err := cli.Reinit(ce.ReinitFile); err != nil {
+			c.Inconclusive("reinit_dkg: %v", err)
+			return
+		}
+		c.Add("reinitialisations_through_the_shipped_binaries", 1)
+	} else {
+		re, err = types.GenerateReDKGMessage(msgs, keys)
+		if err != nil {
+			c.Inconclusive("generate: %v", err)
+			return
+		}
+		re, err = node.GetAdaptedReDKG(re)
+		if err != nil {
+			c.Inconclusive("adapt: %v", err)
+			return
+		}
+		ce.T, ce.Round = re.Threshold, re.DKGID
+		ce.ReinitHashes = captureReinitHashes(w)
+		bz, _ := json.Marshal(re)
+		if err := w.Nodes[0].Svc.ReInitDKG(&dto.ReInitDKGDTO{ID: re.DKGID, Payload: bz}); err != nil {
+			c.Inconclusive("reinit post: %v", err)
+			return
+		}
 	}
 	w.Run(world.RandomPolicy, 6000)
 	c.Eval(1)
-	c.Distinct("reinit|recorded-0.1.4")
+	c.Distinct(fmt.Sprintf("reinit|recorded-0.1.4|tools=%v", viaCLI))
 	// the original group key is the one announced in the recorded log
 	var origKey []byte
 	for _, m := range msgs {
